@@ -420,6 +420,9 @@ pub fn run_history(w: &World, o: &Opts, hist: &[Op]) -> HistResult {
                                 }
                                 if w.image(T::F1) != before {
                                     ctx.viol("C05", &format!("refused-target-modified:{}", REFUSALS[k as usize]), format!("the refused installation ({}) changed the bytes of its target", REFUSALS[k as usize]));
+                                    if k < 3 {
+                                        ctx.viol(if k == 2 { "C10" } else { "C09" }, &format!("refused-target-modified:{}", REFUSALS[k as usize]), format!("the refusal ({}) was raised after the target had been modified", REFUSALS[k as usize]));
+                                    }
                                 }
                                 refused = Some(k);
                                 std::panic::resume_unwind(p);
@@ -462,4 +465,94 @@ pub fn run_history(w: &World, o: &Opts, hist: &[Op]) -> HistResult {
         ctx.observe();
     }
     ctx.res
+}
+
+
+/// C12, long run: `n` create/install/drop cycles of a mixed lifetime (all install kinds, a repeated
+/// target, every third lifetime ending by unwinding); the executable anonymous mappings of the
+/// process must be the same afterwards as before, and while a lifetime is in progress the number
+/// of rwx anonymous pages must equal the number of live installations.
+pub fn run_cycles(w: &World, n: usize) -> (Vec<Violation>, u64) {
+    fn exec_anon() -> Vec<(u64, u64, String)> {
+        // the harness's own synthetic code regions are anonymous too (and the crate leaves the
+        // pages of faked functions rwx, which splits them): not the injector's mappings
+        vkit::proc::maps()
+            .into_iter()
+            .filter(|m| m.path.is_empty() && m.perms.as_bytes().get(2) == Some(&b'x'))
+            .filter(|m| !((m.start >= ARENA && m.end <= ARENA + ARENA_LEN) || (m.start >= PA_ADDR && m.end <= PA_ADDR + 0x1000)))
+            .map(|m| (m.start, m.end, m.perms))
+            .collect()
+    }
+    let mut viols = Vec::new();
+    envx::reset();
+    w.reprotect();
+    let before = exec_anon();
+    // trampolines are the rwx anonymous pages outside the harness's own code regions (the crate
+    // leaves the pages of faked functions rwx, and the arena pages are anonymous too)
+    fn tramp_pages() -> u64 {
+        vkit::proc::maps()
+            .iter()
+            .filter(|m| m.perms.starts_with("rwx") && m.path.is_empty())
+            .map(|m| {
+                let (mut s, e) = (m.start, m.end);
+                let mut n = 0;
+                while s < e {
+                    let own = (s >= ARENA && s < ARENA + ARENA_LEN) || (s >= PA_ADDR && s < PA_ADDR + 0x1000);
+                    if !own {
+                        n += 1;
+                    }
+                    s += 4096;
+                }
+                n
+            })
+            .sum()
+    }
+    let rwx_before = tramp_pages();
+    let lifetime: [(T, K); 7] = [(T::F0, K::RawA), (T::F0, K::RawB), (T::B0, K::BoolT), (T::G, K::Closure), (T::C, K::RawA), (T::A0, K::AsyncV1), (T::F1, K::Closure)];
+    let mut steps = 0u64;
+    for c in 0..n {
+        let r = catch_unwind(AssertUnwindSafe(|| {
+            let mut injector = InjectorPP::new();
+            for (t, k) in lifetime.iter() {
+                install(w, &mut injector, *t, *k);
+                steps += 1;
+            }
+            if c % 997 == 0 {
+                let pages = tramp_pages() - rwx_before;
+                if pages != lifetime.len() as u64 {
+                    viols.push(Violation { prop: "C12", key: "rwx-pages-during-lifetime".into(), step: c, what: format!("cycle {c}: {pages} rwx anonymous page(s) while {} installations are live", lifetime.len()) });
+                }
+            }
+            if c % 3 == 2 {
+                panic!("user panic inside the injector's scope");
+            }
+        }));
+        let _ = r;
+        steps += 1;
+        if envx::MOUNTED && c % 64 == 0 {
+            let _ = envx::take_log();
+            for e in envx::errors() {
+                viols.push(Violation { prop: "C12", key: "bad-unmap".into(), step: c, what: e });
+            }
+            if !envx::owned_pages().is_empty() {
+                viols.push(Violation { prop: "C12", key: "mapping-leaked".into(), step: c, what: format!("cycle {c}: {} mapping(s) still owned after the lifetime", envx::owned_pages().len()) });
+                break;
+            }
+        }
+        if !viols.is_empty() {
+            break;
+        }
+    }
+    let after = exec_anon();
+    if after != before {
+        let extra: Vec<_> = after.iter().filter(|m| !before.contains(m)).take(3).collect();
+        let missing: Vec<_> = before.iter().filter(|m| !after.contains(m)).take(3).collect();
+        viols.push(Violation { prop: "C12", key: "executable-anonymous-mappings-changed".into(), step: n, what: format!("after {n} cycles the executable anonymous mappings differ from before: {} now vs {} before; new {extra:x?}, gone {missing:x?}", after.len(), before.len()) });
+    }
+    for &t in ALL_T.iter() {
+        if w.image(t) != w.pre[t as usize] {
+            viols.push(Violation { prop: "C02", key: "not-restored-bytes".into(), step: n, what: format!("after {n} cycles the entry of {t:?} differs from its pre-image") });
+        }
+    }
+    (viols, steps)
 }
